@@ -52,7 +52,7 @@ type readSiteRow struct {
 	argIsParam                       bool
 }
 
-func exprText(fset *token.FileSet, e ast.Expr) string {
+func read_exprText(fset *token.FileSet, e ast.Expr) string {
 	var b bytes.Buffer
 	printer.Fprint(&b, fset, e)
 	return b.String()
@@ -250,7 +250,7 @@ func extractReadSites(repo string) (string, error) {
 				}
 				row := readSiteRow{fn: fd.Name.Name, callee: cn, guard: "nested", pos: pos}
 				if spec.argIdx < len(c.Args) {
-					row.arg = exprText(fset, c.Args[spec.argIdx])
+					row.arg = read_exprText(fset, c.Args[spec.argIdx])
 					if id, ok := c.Args[spec.argIdx].(*ast.Ident); ok && params[id.Name] && !assigned[id.Name] {
 						row.argIsParam = true
 					}
@@ -265,7 +265,7 @@ func extractReadSites(repo string) (string, error) {
 					}
 				}
 				if spec.lhsIdx < len(lhs) {
-					row.lhs = exprText(fset, lhs[spec.lhsIdx])
+					row.lhs = read_exprText(fset, lhs[spec.lhsIdx])
 				}
 				rows = append(rows, row)
 				return true
